@@ -592,3 +592,39 @@ Print Assumptions C08_transparent_rank.
 Print Assumptions C08_transparent_rank_insert.
 Print Assumptions C08_transparent_quantile_across_encodings.
 Print Assumptions C08_transparent_partition.
+
+(* ==== extension: null transparency of the quantile AT BINARY64, outright ======================================
+   Carrier: Coq's primitive `float` (IEEE 754 binary64, instance NumF64 — what the correspondence run evaluates);
+   floor / ceiling: QIdxFloat.NumFloorF64 = the instance of Run/RunC12.v.  The index law that
+   C08_transparent_quantile_index_law needs is proved in Proofs/QIdxFloat.v (Flocq's specification of IEEE
+   arithmetic: (n-1) as f64 * q is rounded monotonically; on either branch the factor is at most 0.5).
+   Axioms: the Reals axioms + the standard library's specification of the primitive float operations.           *)
+From Coq Require Floats.
+From Tevec Require Base.F64 Proofs.QIdxFloat.
+
+Theorem C08_quantile_index_law_binary64 :
+  TransQuantile.QIdxLaw (A := PrimFloat.float) (NA := F64.NumF64) (NF := QIdxFloat.NumFloorF64).
+Proof. exact QIdxFloat.qidx_law_f64. Qed.
+
+(* inserting nulls anywhere changes neither vquantile nor vmedian at binary64 — the same result bit for bit, the same
+   Err, never a panic on either side: every q, every method, every null dictionary over f64 (NaN, Option<f64>) *)
+Theorem C08_transparent_quantile_binary64 :
+  forall {T} {D : IsNone T PrimFloat.float} (q : PrimFloat.float) (m : Quantile.qmethod) (xs ys : list T),
+    NullInsert xs ys ->
+    Quantile.vquantile (NF := QIdxFloat.NumFloorF64) q m ys = Quantile.vquantile (NF := QIdxFloat.NumFloorF64) q m xs /\
+    Quantile.vmedian (NF := QIdxFloat.NumFloorF64) ys = Quantile.vmedian (NF := QIdxFloat.NumFloorF64) xs.
+Proof. intros T D q m xs ys H. apply QIdxFloat.vquantile_null_transparent_f64. exact H. Qed.
+
+(* ---- non-vacuity ---- *)
+From Coq Require Import Floats.   (* float literals *)
+Example C08_ex_null_insert_binary64 :
+  NullInsert (D := F64.IsNoneF64) [3%float; 1%float; 2%float] [PrimFloat.nan; 3%float; 1%float; PrimFloat.nan; 2%float] /\
+  Quantile.vquantile (NF := QIdxFloat.NumFloorF64) (DT := F64.IsNoneF64) 0.25%float Quantile.Linear
+                     [PrimFloat.nan; 3%float; 1%float; PrimFloat.nan; 2%float] = Ok (Some 1.5%float).
+Proof.
+  split; [|vm_compute; reflexivity].
+  apply ni_null; [reflexivity|]. apply ni_keep, ni_keep. apply ni_null; [reflexivity|]. apply ni_keep, ni_nil.
+Qed.
+
+Print Assumptions C08_quantile_index_law_binary64.
+Print Assumptions C08_transparent_quantile_binary64.
